@@ -359,8 +359,8 @@ namespace lab
         r.push_back(E<og::RRTstar>("RRTstar", F_OPT | F_PAIRS | F_APPROX));
         r.push_back(E<og::InformedRRTstar>("InformedRRTstar", F_OPT | F_PAIRS | F_APPROX));
         r.push_back(E<og::SORRTstar>("SORRTstar", F_OPT | F_PAIRS | F_APPROX));
-        r.push_back(E<og::RRTsharp>("RRTsharp", F_OPT | F_PAIRS | F_APPROX));
-        r.push_back(E<og::RRTXstatic>("RRTXstatic", F_OPT | F_PAIRS | F_APPROX));
+        r.push_back(E<og::RRTsharp>("RRTsharp", F_OPT | F_PAIRS | F_APPROX | F_SYMM));   // "requires symmetric distance and interpolation"
+        r.push_back(E<og::RRTXstatic>("RRTXstatic", F_OPT | F_PAIRS | F_APPROX | F_SYMM));
         r.push_back(E<og::LBTRRT>("LBTRRT", F_OPT | F_PAIRS | F_APPROX));
         r.push_back(E<og::LazyLBTRRT>("LazyLBTRRT", F_OPT | F_PAIRS | F_APPROX));
         r.push_back(E<og::LazyRRT>("LazyRRT", F_PAIRS));
